@@ -1,6 +1,66 @@
 import TantivyModel.Driver.Proto
+import TantivyModel.Model.Faults
+/-!
+Line protocol of the fault model (C11).
+
+`run <cap> <call>,<call>,…` — calls from the empty index (`cap` = the literal `cap` for the
+extracted `PIPELINE_MAX_SIZE_IN_DOCS`, or a number); a call is `<c>` or `<c>:<ph>+<ph>…`
+(the storage phases that hit a failing operation during that call):
+  calls  : `n` Index::writer · `a<d>` add_document(d) · `c` commit · `r` rollback · `d` drop ·
+           `m` merge(all).wait · `g` garbage_collect_files.wait · `l` reader reload ·
+           `x` the operator removes an orphaned writer lock file
+  phases : `lo` `lf` `ld` lock open/flush/delete · `cr` reads in IndexWriter::new · `wk` worker ·
+           `pu` purge · `sm` save_metas · `gl` `gd` `gm` GC lock/delete/managed.json ·
+           `mt` merge thread · `ep` `es` end_merge purge/save · `rl` reload
+response: `<res>,<res>,…|<content of meta.json as doc ids>|<stale lock 0/1>|<searcher content>`
+-/
 namespace TantivyModel.Driver.C11
-/-- stub: the model for C11 is not built yet -/
+open TantivyModel TantivyModel.Proto TantivyModel.Faults
+
+def phaseOf : String → Option Phase
+  | "lo" => some .lockOpen | "lf" => some .lockFlush | "ld" => some .lockDelete
+  | "cr" => some .ctorRead | "wk" => some .worker | "pu" => some .purge | "sm" => some .saveMeta
+  | "gl" => some .gcLock | "gd" => some .gcDelete | "gm" => some .gcManaged
+  | "mt" => some .mergeThread | "ep" => some .endMergePurge | "es" => some .endMergeSave
+  | "rl" => some .reload
+  | _ => none
+
+def callOf (t : String) : Option Call :=
+  match t.toList with
+  | ['n'] => some .newWriter
+  | ['c'] => some .commit
+  | ['r'] => some .rollback
+  | ['d'] => some .dropWriter
+  | ['m'] => some .merge
+  | ['g'] => some .gc
+  | ['l'] => some .reload
+  | ['x'] => some .removeLock
+  | 'a' :: rest => (String.ofList rest).toNat?.map .add
+  | _ => none
+
+def parseTok (tok : String) : Option (Call × List Phase) :=
+  match tok.splitOn ":" with
+  | [c] => (callOf c).map (fun c => (c, []))
+  | [c, ps] => do
+    let c ← callOf c
+    let ps ← (ps.splitOn "+").mapM phaseOf
+    pure (c, ps)
+  | _ => none
+
+def showRes : Res → String
+  | .ok => "ok" | .err => "err" | .panic => "panic" | .hang => "hang"
+
 def handle : List String → String
+  | ["run", cap, toks] =>
+    match (if cap == "cap" then some codeCap else cap.toNat?), (if toks == "-" then some [] else (toks.splitOn ",").mapM parseTok) with
+    | some cap, some cps =>
+      let plans : List (List Phase) := cps.map (·.2)
+      let F : Nat → Plan := fun i p => (plans.getD i []).contains p
+      let r := run cap F 0 init (cps.map (·.1))
+      (if r.2.isEmpty then "-" else ",".intercalate (r.2.map showRes)) ++ "|" ++
+        showNatList (content r.1.metaSegs) ++ "|" ++ showBool (stale r.1) ++ "|" ++
+        showNatList (content r.1.searcher)
+    | _, _ => "bad-op"
   | _ => "bad-op"
+
 end TantivyModel.Driver.C11
